@@ -341,6 +341,9 @@ func ManifestReferrerDescriptor(raw []byte, d Descriptor) (Descriptor, Descripto
 		rd.ArtifactType = referrer.ArtifactType
 	} else if referrer.Config != nil {
 		rd.ArtifactType = referrer.Config.MediaType
+	} else {
+		// the artifact type always comes from the manifest, not from the descriptor that was passed in
+		rd.ArtifactType = ""
 	}
 	rd.Annotations = referrer.Annotations
 	return subject, rd, nil
